@@ -189,6 +189,18 @@ ObuAt(d, p) ==
                     ELSE [ok |-> TRUE, type |-> ObuType(b), hdr |-> h1 + l.n, total |-> h1 + l.n + l.v]
                  ELSE [ok |-> TRUE, type |-> ObuType(b), hdr |-> h1, total |-> Len(d) - p + 1]
 
+(* obu_header() + obu_size alone (what codec::av1::parse_obu_header reports): no check that the payload fits *)
+ObuHeaderAt(d, p) ==
+    IF p > Len(d) \/ d[p] >= 128 THEN [ok |-> FALSE]
+    ELSE LET b == d[p]
+             h1 == 1 + ObuExt(b)
+         IN IF p + h1 - 1 > Len(d) THEN [ok |-> FALSE]
+            ELSE IF ObuHasSize(b) = 1 THEN
+                    LET l == Leb(d, p + h1) IN
+                    IF l.n = 0 THEN [ok |-> FALSE]
+                    ELSE [ok |-> TRUE, type |-> ObuType(b), ext |-> ObuExt(b), hdr |-> h1 + l.n, payload |-> l.v]
+                 ELSE [ok |-> TRUE, type |-> ObuType(b), ext |-> ObuExt(b), hdr |-> h1, payload |-> Len(d) - p + 1 - h1]
+
 (* The first sequence-header OBU of a temporal unit: [found, from, hdr, total] *)
 RECURSIVE FirstSeqObu(_, _)
 FirstSeqObu(d, p) ==
